@@ -101,7 +101,108 @@ StatementContexts == {
     Q("any-subquery", S \o <<"WHERE", "a", "=", "ANY", "(">>, <<")">>),
     Q("group-by-subquery", S \o <<"GROUP", "BY", "(">>, <<")">>) }
 
-Contexts == BinaryContexts \cup OtherExpressionContexts \cup StatementContexts
+\* Positions of the wider SQL surface.  Whether today's parser takes a construct here or not is not the model's business:
+\* the law "beyond the limit it is rejected, and the stack is bounded" is judged for a context from the moment the
+\* parser accepts it at small depths, so a position that starts being accepted is covered the day it is.
+W == <<"WITH", "c", "AS", "(", "SELECT", "1", ")">>
+FurtherStatementContexts == {
+    Q("with-main-derived", W \o <<"SELECT", "*", "FROM", "(">>, <<")", "x">>),
+    Q("with-main-join-derived", W \o S \o <<"JOIN", "(">>, <<")", "x", "ON", "a", "=", "1">>),
+    Q("with-main-in-subquery", W \o S \o <<"WHERE", "a", "IN", "(">>, <<")">>),
+    Q("with-main-exists", W \o S \o <<"WHERE", "EXISTS", "(">>, <<")">>),
+    Q("with-main-scalar-subquery", W \o <<"SELECT", "(">>, <<")", "FROM", "t">>),
+    Q("with-main-union-right", W \o S \o <<"UNION", "(">>, <<")">>),
+    Q("with-cte-body", <<"WITH", "c", "AS", "(", "WITH", "d", "AS", "(">>, <<")", "SELECT", "a", "FROM", "d", ")", "SELECT", "a", "FROM", "c">>),
+    Q("recursive-cte", <<"WITH", "RECURSIVE", "c", "AS", "(">>, <<")", "SELECT", "a", "FROM", "c">>),
+    Q("materialized-cte", <<"WITH", "c", "AS", "MATERIALIZED", "(">>, <<")", "SELECT", "a", "FROM", "c">>),
+    Q("limit-subquery", S \o <<"LIMIT", "(">>, <<")">>),
+    Q("offset-subquery", S \o <<"LIMIT", "1", "OFFSET", "(">>, <<")">>),
+    Q("fetch-subquery", S \o <<"FETCH", "FIRST", "(">>, <<")", "ROWS", "ONLY">>),
+    Q("distinct-on-subquery", <<"SELECT", "DISTINCT", "ON", "(", "(">>, <<")", ")", "a", "FROM", "t">>),
+    Q("rollup-subquery", S \o <<"GROUP", "BY", "ROLLUP", "(", "(">>, <<")", ")">>),
+    Q("grouping-sets-subquery", S \o <<"GROUP", "BY", "GROUPING", "SETS", "(", "(", "(">>, <<")", ")", ")">>),
+    Q("window-definition-subquery", <<"SELECT", "SUM", "(", "a", ")", "OVER", "w", "FROM", "t", "WINDOW", "w", "AS", "(", "PARTITION", "BY", "(">>, <<")", ")">>),
+    Q("select-alias-subquery", <<"SELECT", "(">>, <<")", "AS", "x", "FROM", "t">>),
+    Q("all-subquery", S \o <<"WHERE", "a", ">", "ALL", "(">>, <<")">>),
+    Q("some-subquery", S \o <<"WHERE", "a", "=", "SOME", "(">>, <<")">>),
+    Q("not-exists", S \o <<"WHERE", "NOT", "EXISTS", "(">>, <<")">>),
+    Q("in-subquery-second-condition", S \o <<"WHERE", "a", "=", "1", "AND", "a", "IN", "(">>, <<")">>),
+    Q("array-subquery", <<"SELECT", "ARRAY", "(">>, <<")", "FROM", "t">>),
+    Q("table-function-argument", <<"SELECT", "*", "FROM", "f", "(", "(">>, <<")", ")", "x">>),
+    Q("unnest-argument", <<"SELECT", "*", "FROM", "UNNEST", "(", "(">>, <<")", ")", "x">>),
+    Q("values-row", <<"SELECT", "*", "FROM", "(", "VALUES", "(", "(">>, <<")", ")", ")", "x">>),
+    Q("cross-join-derived", S \o <<"CROSS", "JOIN", "(">>, <<")", "x">>),
+    Q("natural-join-derived", S \o <<"NATURAL", "JOIN", "(">>, <<")", "x">>),
+    Q("full-join-derived", S \o <<"FULL", "OUTER", "JOIN", "(">>, <<")", "x", "ON", "a", "=", "1">>),
+    Q("join-lateral", S \o <<"LEFT", "JOIN", "LATERAL", "(">>, <<")", "x", "ON", "TRUE">>),
+    Q("cross-apply", S \o <<"CROSS", "APPLY", "(">>, <<")", "x">>),
+    Q("parenthesised-join-derived", <<"SELECT", "*", "FROM", "(", "t", "JOIN", "(">>, <<")", "x", "ON", "a", "=", "1", ")">>),
+    Q("intersect-right-parenthesised", S \o <<"INTERSECT", "(">>, <<")">>),
+    Q("union-all-right-parenthesised", S \o <<"UNION", "ALL", "(">>, <<")">>),
+    Q("union-left-parenthesised", <<"(">>, <<")", "UNION", "SELECT", "a", "FROM", "t">>),
+    Q("parenthesised-query", <<"(">>, <<")">>),
+    Q("parenthesised-query-ordered", <<"(">>, <<")", "ORDER", "BY", "1">>),
+    Q("qualify-subquery", S \o <<"QUALIFY", "a", "IN", "(">>, <<")">>),
+    Q("like-subquery", S \o <<"WHERE", "a", "LIKE", "(">>, <<")">>),
+    Q("is-null-subquery", S \o <<"WHERE", "(">>, <<")", "IS", "NULL">>),
+    Q("cast-subquery", <<"SELECT", "CAST", "(", "(">>, <<")", "AS", "INT", ")", "FROM", "t">>),
+    Q("window-order-subquery", <<"SELECT", "SUM", "(", "a", ")", "OVER", "(", "ORDER", "BY", "(">>, <<")", ")", "FROM", "t">>),
+    Q("filter-subquery", <<"SELECT", "COUNT", "(", "a", ")", "FILTER", "(", "WHERE", "a", "IN", "(">>, <<")", ")", "FROM", "t">>),
+    Q("array-element-subquery", <<"SELECT", "ARRAY", "[", "(">>, <<")", "]", "FROM", "t">>),
+    Q("case-result-subquery", <<"SELECT", "CASE", "WHEN", "a", "THEN", "(">>, <<")", "END", "FROM", "t">>),
+    Q("coalesce-subquery", <<"SELECT", "COALESCE", "(", "a", ",", "(">>, <<")", ")", "FROM", "t">>),
+    Q("tuple-in-subquery", S \o <<"WHERE", "(", "a", ",", "b", ")", "IN", "(">>, <<")">>) }
+
+FurtherExpressionContexts == {
+    E("plus-sign", <<"+", "(">>, <<")">>),
+    E("is-true", <<"(">>, <<")", "IS", "TRUE">>), E("is-distinct-from-left", <<"(">>, <<")", "IS", "DISTINCT", "FROM", "1">>),
+    E("is-distinct-from-right", <<"1", "IS", "DISTINCT", "FROM", "(">>, <<")">>),
+    E("not-like-right", <<"a", "NOT", "LIKE", "(">>, <<")">>), E("not-between-lower", <<"a", "NOT", "BETWEEN", "(">>, <<")", "AND", "2">>),
+    E("like-escape", <<"a", "LIKE", "b", "ESCAPE", "(">>, <<")">>),
+    E("similar-to-right", <<"a", "SIMILAR", "TO", "(">>, <<")">>), E("regexp-right", <<"a", "REGEXP", "(">>, <<")">>),
+    E("at-time-zone", <<"(">>, <<")", "AT", "TIME", "ZONE", "'UTC'">>),
+    E("collate", <<"(">>, <<")", "COLLATE", "x">>),
+    E("cast-colons-chain", <<"(">>, <<")", "::", "INT", "::", "TEXT">>),
+    E("contains-right", <<"a", "@>", "(">>, <<")">>), E("contained-left", <<"(">>, <<")", "<@", "a">>),
+    E("json-path-right", <<"a", "#>", "(">>, <<")">>), E("json-path-text-right", <<"a", "#>>", "(">>, <<")">>),
+    E("json-exists-right", <<"a", "?", "(">>, <<")">>), E("json-delete-right", <<"a", "#-", "(">>, <<")">>),
+    E("bit-and-right", <<"a", "&", "(">>, <<")">>), E("bit-or-right", <<"a", "|", "(">>, <<")">>),
+    E("shift-left-right", <<"a", "<<", "(">>, <<")">>), E("power-right", <<"a", "^", "(">>, <<")">>),
+    E("null-safe-equal-right", <<"a", "<=>", "(">>, <<")">>), E("regex-match-right", <<"a", "~", "(">>, <<")">>),
+    E("xor-right", <<"a", "XOR", "(">>, <<")">>), E("div-right", <<"a", "DIV", "(">>, <<")">>),
+    E("any-element", <<"a", "=", "ANY", "(", "(">>, <<")", ")">>),
+    E("all-element", <<"a", "=", "ALL", "(", "(">>, <<")", ")">>),
+    B("try-cast", <<"TRY_CAST", "(", "(">>, <<")", "AS", "INT", ")">>),
+    B("convert", <<"CONVERT", "(", "(">>, <<")", ",", "INT", ")">>),
+    B("extract-from", <<"EXTRACT", "(", "YEAR", "FROM", "(">>, <<")", ")">>),
+    B("substring-from", <<"SUBSTRING", "(", "(">>, <<")", "FROM", "1", "FOR", "2", ")">>),
+    B("substring-for", <<"SUBSTRING", "(", "a", "FROM", "1", "FOR", "(">>, <<")", ")">>),
+    B("position-in", <<"POSITION", "(", "(">>, <<")", "IN", "a", ")">>),
+    B("trim-from", <<"TRIM", "(", "BOTH", "'x'", "FROM", "(">>, <<")", ")">>),
+    B("overlay", <<"OVERLAY", "(", "a", "PLACING", "(">>, <<")", "FROM", "1", ")">>),
+    B("row-constructor", <<"ROW", "(", "(">>, <<")", ",", "1", ")">>),
+    B("coalesce", <<"COALESCE", "(", "a", ",", "(">>, <<")", ")">>),
+    B("nullif", <<"NULLIF", "(", "(">>, <<")", ",", "1", ")">>),
+    B("greatest", <<"GREATEST", "(", "1", ",", "(">>, <<")", ")">>),
+    B("qualified-call", <<"s", ".", "f", "(", "(">>, <<")", ")">>),
+    B("call-star-filter", <<"COUNT", "(", "*", ")", "FILTER", "(", "WHERE", "(">>, <<")", ")">>),
+    B("call-over-named-partition", <<"SUM", "(", "a", ")", "OVER", "(", "w", "PARTITION", "BY", "(">>, <<")", ")">>),
+    B("call-second-order-key", <<"f", "(", "a", "ORDER", "BY", "b", ",", "(">>, <<")", ")">>),
+    B("call-separator", <<"STRING_AGG", "(", "a", ",", "(">>, <<")", ")">>),
+    B("call-ignore-nulls", <<"LAG", "(", "(">>, <<")", ")", "IGNORE", "NULLS", "OVER", "(", "ORDER", "BY", "a", ")">>),
+    B("array-middle-element", <<"ARRAY", "[", "1", ",", "(">>, <<")", ",", "3", "]">>),
+    B("nested-array", <<"ARRAY", "[", "ARRAY", "[", "(">>, <<")", "]", "]">>),
+    B("slice-start", <<"a", "[", "(">>, <<")", ":", "2", "]">>),
+    B("second-subscript", <<"a", "[", "1", "]", "[", "(">>, <<")", "]">>),
+    E("interval-of", <<"INTERVAL", "(">>, <<")", "DAY">>),
+    B("case-third-condition", <<"CASE", "WHEN", "a", "THEN", "1", "WHEN", "b", "THEN", "2", "WHEN", "(">>, <<")", "THEN", "3", "END">>),
+    B("case-second-result", <<"CASE", "WHEN", "a", "THEN", "1", "WHEN", "b", "THEN", "(">>, <<")", "END">>),
+    B("case-operand-else", <<"CASE", "a", "WHEN", "1", "THEN", "2", "ELSE", "(">>, <<")", "END">>),
+    E("row-middle", <<"(", "1", ",", "(">>, <<")", ",", "3", ")">>),
+    E("tuple-in-subject", <<"(", "a", ",", "(">>, <<")", ")", "IN", "(", "(", "1", ",", "2", ")", ")">>),
+    E("tuple-in-element", <<"(", "a", ",", "b", ")", "IN", "(", "(", "1", ",", "(">>, <<")", ")", ")">>) }
+
+Contexts == BinaryContexts \cup OtherExpressionContexts \cup StatementContexts \cup FurtherStatementContexts \cup FurtherExpressionContexts
 
 VARIABLES ctx, done
 vars == <<ctx, done>>
